@@ -74,6 +74,8 @@ class Exprs:
         while f is not None:
             if f.func is not None:
                 return f"+{line - f.func.node.lineno}"
+            if getattr(f, "label", None):
+                return "exit"
             f = f.parent
         return f"L{line}"
 
@@ -116,6 +118,8 @@ class Exprs:
             return z3.BoolVal(True)
         if isinstance(v, VPrimUnion):
             raise Unsupported("truthiness of primitive union")
+        if isinstance(v, VOpaque):
+            return z3.Bool(self.path.fresh_name("$opaque-truth"))
         raise Unsupported(f"truthiness of {v!r}")
 
     def unwrap(self, v: V, node: Any, fr: Frame, what: str = "value") -> V:
@@ -145,6 +149,8 @@ class Exprs:
             if "bool" in v.order:
                 t = z3.If(v.is_kind("bool"), z3.If(v.alts["bool"].t, 1, 0), t)  # type: ignore
             return t
+        if isinstance(v, VOpaque) and v.hint.startswith("undefined"):
+            return z3.Int(self.path.fresh_name("$opaque-int"))
         raise Unsupported(f"int expected, got {v!r}")
 
     def as_str(self, v: V, node: Any, fr: Frame) -> VStr:
@@ -154,6 +160,8 @@ class Exprs:
         if isinstance(v, VPrimUnion) and "str" in v.order:
             self.ob(v.is_kind("str"), "type", node, fr, "operand is a str")
             return v.alts["str"]  # type: ignore
+        if isinstance(v, VOpaque) and v.hint.startswith("undefined"):
+            return self.opaque_str("opaque-str")
         raise Unsupported(f"str expected, got {v!r}")
 
     def pystr(self, s: str) -> VStr:
@@ -174,6 +182,8 @@ class Exprs:
     # -------------------------------------------------------------- equality etc.
     def eq(self, a: V, b: V) -> Any:
         """z3 Bool: Python ``a == b``."""
+        if isinstance(a, VOpaque) or isinstance(b, VOpaque):
+            return z3.Bool(self.path.fresh_name("$opaque-eq"))
         if isinstance(a, VOpt) or isinstance(b, VOpt):
             if isinstance(a, VOpt) and isinstance(b, VOpt):
                 return z3.Or(z3.And(a.isnone, b.isnone),
@@ -258,6 +268,8 @@ class Exprs:
 
     def same(self, a: V, b: V) -> Any:
         """z3 Bool: Python ``a is b``."""
+        if isinstance(a, VOpaque) or isinstance(b, VOpaque):
+            return z3.Bool(self.path.fresh_name("$opaque-is"))
         if isinstance(a, VOpt) or isinstance(b, VOpt):
             if isinstance(a, VOpt) and isinstance(b, VOpt):
                 return z3.Or(z3.And(a.isnone, b.isnone),
@@ -293,6 +305,10 @@ class Exprs:
     def ite_merge(self, c: Any, a: V, b: V) -> Optional[V]:
         """``a if c else b`` as one value, if shapes are compatible; else None."""
         if a is b:
+            return a
+        if isinstance(a, VOpaque) and a.hint.startswith("undefined"):
+            return b
+        if isinstance(b, VOpaque) and b.hint.startswith("undefined"):
             return a
         if isinstance(a, VInt) and isinstance(b, VInt):
             return VInt(z3.If(c, a.t, b.t))
@@ -829,6 +845,8 @@ class Exprs:
 
     def index(self, base: V, idx: V, node: Any, fr: Frame) -> V:
         base = self.unwrap(base, node, fr, "subscripted value")
+        if isinstance(base, VOpaque):
+            return VOpaque(base.hint + "[]")
         if isinstance(base, VDict):
             got = self.dict_get(base, idx, fr, node)
             if isinstance(got, VOpt):
